@@ -239,7 +239,7 @@ def run(ctx, C, fam, quick, thorough):
                 if head.get("n", 0) >= n:
                     rows = [json.loads(l) for l in fh]
                     return [r for r in rows if _idx(r["case"].get("id")) < n or not str(r["case"].get("id", "")).startswith(fam + "-")]
-        rows = C.run_family_sharded(fam, n, ctx.seed, ctx.tier, shards=16)
+        rows = C.run_family_sharded(fam, n, ctx.seed, ctx.tier, shards=16, timeout=3600 if ctx.tier == "quick" else 14400)
         for old in [f for f in os.listdir(C.WORK) if f.startswith("cache_%s_" % fam) and f != os.path.basename(path)]:
             try:
                 os.unlink(os.path.join(C.WORK, old))
@@ -291,3 +291,30 @@ def pathfuncs_tie(ctx, C, ops):
             bad.append((r["case"], {"what": "%s: model and implementation of the string function disagree (tie T2 broken)" % r["case"]["op"],
                                     "go": r["go"], "model": r["m"], "tie": True, "no_failing_input": True}))
     return cnt, bad
+
+
+def whole_model_tie(rows):
+    """the model of the whole of Validate (Impl/SpecModel.lean: schema pass, reference check, rule loops, default and example
+    stages with the validator models as judges, through the pipeline) gives the code's verdict in both continue-on-errors modes.
+    Whether every $ref resolves is an oracle (go-openapi/spec's expander): documents where the code reports an unresolvable
+    reference that the driver's local resolution does not see are left out. Returns (comparisons, mismatches)."""
+    n, bad = 0, []
+    for r in rows:
+        go, m = r["go"], r["m"]
+        if not isinstance(go, dict) or not go.get("loaded") or "crash" in go or not m or not m.get("whole"):
+            continue
+        if any("panic" in x or x.get("nilResult") for x in go.get("runs", [])):
+            continue
+        for cont, key in ((True, "cont"), (False, "stop")):
+            g = runs_of(go, cont, "same")
+            if not g or "valid" not in g[0]:
+                continue
+            unres = any(t.startswith(("unresolvedReferences", "invalidRef")) for t in rule_tags(g[0].get("errors", [])))
+            if unres and m.get("localRefsOk"):
+                continue
+            n += 1
+            w = m["whole"][key]
+            if w["panic"] or bool(w["valid"]) != bool(g[0]["valid"]) or not w["warnsEq"]:
+                bad.append((r["case"], {"what": "the model of the whole of Validate and the implementation disagree on the verdict (tie T2 broken)",
+                                        "mode_continue": cont, "go_valid": g[0]["valid"], "model": w, "go_errors": g[0].get("errors", [])[:4]}))
+    return n, bad
